@@ -11,6 +11,7 @@ func main() {
 		vlib.Group{Name: "minimize", Gen: genMinimize},
 		vlib.Group{Name: "pools", Gen: genPools},
 		vlib.Group{Name: "pool-discipline", Gen: genPoolDiscipline},
+		vlib.Group{Name: "pool-resize", Gen: genPoolResize},
 		vlib.Group{Name: "lazy", Gen: genLazy},
 	)
 }
